@@ -689,6 +689,13 @@ func runCheck(spec *CheckSpec, tier string, seed, workers int) int {
 	if spec.Bounds != nil {
 		bounds = spec.Bounds(tier)
 	}
+	measured := sess.In.EncodedFunctions([]string{ledgerMod, libsMod}, func(name string) bool {
+		return strings.Contains(name, "verifhook") || strings.Contains(name, ".zz") || strings.Contains(name, ".ZZ_") || strings.Contains(name, "$bound")
+	})
+	totalFns := len(measured)
+	if len(measured) > 80 {
+		measured = measured[:80]
+	}
 	samples = append(samples, cexSamples...)
 	if len(samples) == 0 {
 		samples = append(samples, map[string]any{"note": "no completed path produced a witness model"})
@@ -705,6 +712,7 @@ func runCheck(spec *CheckSpec, tier string, seed, workers int) int {
 		"assertions_decided_by_solver":  assertsSym,
 		"ssa_instructions_interpreted":  steps,
 		"functions_encoded":             fnStats,
+		"functions_interpreted_measured": map[string]any{"repository_functions_entered": totalFns, "most_entered": measured},
 		"bounds":                        bounds,
 		"queries":                       map[string]any{"total": ex.Stats.Queries, "sat": ex.Stats.Sat, "unsat": ex.Stats.Unsat, "unknown": ex.Stats.Unknown, "solver_errors": ex.Stats.Errors, "redecided_by_fallback_solver": ex.FallbackStats},
 		"solver":                        "z3 4.8.12 (-in, incremental; no set-logic); queries it answers unknown are re-decided one-shot by z3 5.1.0 (z3-new), then cvc5 1.0",
